@@ -4,6 +4,7 @@
    Z[w]   : <<a,b,c,d>> = a + b w + c w^2 + d w^3,  w = exp(i pi/4), w^4 = -1
    Matrices / vectors are 1-indexed sequences (row r, column c); basis index b in 0..D-1 is position b+1. *)
 EXTENDS Integers, Sequences, SequencesExt, TLC
+ModI(a, b) == a % b
 \* ---------------- Z[i]
 GZero == <<0, 0>>
 GOne == <<1, 0>>
